@@ -47,6 +47,9 @@ def run(tier):
     for i in range(500 if quick else 15000 * common.TS):
         plist.append({"name": "locals/%d" % i, "steps": [("snip", feat_exc.local_integrity_program(r3.fork(str(i))))], "mods": []})
 
+    r5 = ck.rng.fork("finpaths")
+    for i in range(400 if quick else 10000 * common.TS):
+        plist.append({"name": "finpaths/%d" % i, "steps": [("snip", feat_exc.finally_paths_program(r5.fork(str(i))))], "mods": []})
     # exception state must not leak from one run into the next on the same interpreter (uncaught throws of every kind
     # followed by try / finally in later snippets)
     from ..gen import feat_repl
